@@ -128,6 +128,18 @@ class ZoneAnalysis:
                         if not hash_safe(key):
                             out.append(Source('hashed-store', f"{{{key}: ...}}", [TYPEERR], n, sub, func,
                                               "dict built with a computed key that may be unhashable"))
+            # truth value of what an opaque callable returned, taken at another statement than the call
+            if n.kind == 'cond' and n.ast is not None:
+                tst: ast.AST = n.ast
+                while isinstance(tst, ast.UnaryOp) and isinstance(tst.op, ast.Not):
+                    tst = tst.operand
+                if isinstance(tst, ast.Name):
+                    form = nz.expr(tst, n)
+                    mm = re.match(r'^self\.(\w+)\(', form)
+                    if mm and mm.group(1) in self.opq:
+                        out.append(Source('truth', f"bool({form})", [EXC], n, tst, func,
+                                          "truth value of what a user-supplied callable returned: its __bool__ may raise anything (a numpy array "
+                                          "refuses to be a truth value)"))
             # hashed stores into locals:  d[key] = v / s.add(x)
             if n.kind == 'stmt' and isinstance(n.ast, ast.Assign):
                 for tg in n.ast.targets:
@@ -171,8 +183,15 @@ class ZoneAnalysis:
         cfg = cfg_of(self.model, s.func)
         nz = Normalizer(self.model, s.func, cfg)
         sub = s.sub
-        base = nz.expr(sub.value, s.node)   # type: ignore[attr-defined]
-        key = nz.expr(sub.slice, s.node)    # type: ignore[attr-defined]
+        if isinstance(sub, ast.Subscript):
+            base = nz.expr(sub.value, s.node)
+            key = nz.expr(sub.slice, s.node)
+        else:
+            # a lookup inside a helper, judged at the helper's call site: table and key are read from the source's normal form
+            # (helper parameters are named by what every call site passes, so the form is valid in the caller's terms)
+            if '[' not in s.text or not s.text.endswith(']'):
+                return False
+            base, key = s.text[:s.text.index('[')], s.text[s.text.index('[') + 1:-1]
         bases = {base} | self.sibling_tables(base)
         for a in cfg.nodes:
             if a.kind != 'cond':
